@@ -4,6 +4,9 @@ import json, os
 here = os.path.dirname(os.path.dirname(os.path.abspath(__file__)))
 TECH = "deterministic simulation with fault injection"
 claimed = {
+ "C07": ("exploration", "for each long-running library entry point a seeded schedule is recorded and then re-run with the context cancelled before every scheduling decision (exhaustive over the cancellation points of that schedule when it has <= 150 steps, sampled otherwise); oracle: a nil result implies the work is complete, the call returns and does not panic",
+         "sampling over workloads and schedules, exhaustive over cancellation points of each short recorded schedule; CLI signal handling is represented by cancelling the root context; process-level signalling of the real binary is not part of this check",
+         TECH + " (seeded scheduler, cancellation-point enumeration, completeness oracle)"),
  "C01": ("exploration", "seeded search over blobs, seed sets (stale, truncated, empty, duplicate, aliasing the target), prior target contents, worker counts, invalid-seed actions, store faults, a seed mutator and worker interleavings of the real AssembleFile, with and without an emulated cloning filesystem; oracle: nil => target == blob, and termination with success where the statement demands it",
          "sampling; FICLONERANGE emulated in process; scheduling granularity = channel/lock/store ops (+ file-system calls in a third of the runs); regular files on tmpfs only",
          TECH + " (seeded scheduler, faulty store, FICLONERANGE emulator, output-vs-blob oracle)"),
